@@ -128,7 +128,13 @@ def _classes():
         a: int = 0
         ident: int = -100
 
-    _CLS.update(P=P, V1=V1, V2=V2, Q=Q)
+    from krrood.entity_query_language.predicate import symbolic_function
+
+    @symbolic_function
+    def c03_gt(p, t):
+        return p.a > t
+
+    _CLS.update(P=P, V1=V1, V2=V2, Q=Q, gt=c03_gt)
     return _CLS
 
 
@@ -325,11 +331,14 @@ def run_impl(d):
         return impl_extend(d)
     if k == "sharedattr":
         return impl_sharedattr(d)
+    if k == "domainless":
+        return impl_domainless(d)
     raise ValueError(k)
 
 
 # ---- shapes outside the modelled fragment: implementation vs isolated result of a fresh query
 CMP_SHAPES = ("cmp_twice", "cmp_twice1", "cmp_not", "cmp_plain")
+SF_SHAPES = ("sf_cond", "sf_sel", "sf_and")
 
 
 def _extra_query(shape, vars_, V1, shared=None):
@@ -349,6 +358,18 @@ def _extra_query(shape, vars_, V1, shared=None):
         return an(set_of([x, y], or_(x.a == shape[1], y.a == shape[2]))), lambda r: [r[x].ident, r[y].ident]
     if name == "andnot":
         return an(entity(x, and_(x.a >= shape[1], not_(x.a == shape[2])))), lambda r: [r.ident]
+    if name in SF_SHAPES:
+        # ONE @symbolic_function call node per threshold, shared by every query of the build: a condition in one query, a
+        # SELECTED value in another
+        shared = {} if shared is None else shared
+        big = shared.get(("sf", shape[1]))
+        if big is None:
+            big = shared[("sf", shape[1])] = _classes()["gt"](x, shape[1])
+        if name == "sf_cond":
+            return an(entity(x, big)), lambda r: [r.ident]
+        if name == "sf_and":
+            return an(entity(x, and_(x.a >= 0, big))), lambda r: [r.ident]
+        return an(set_of([x, big])), lambda r: [r[x].ident, int(bool(r[big]))]
     if name in CMP_SHAPES:
         # ONE comparison object per threshold, shared by every query of the build: c = x.a > t
         shared = {} if shared is None else shared
@@ -488,6 +509,42 @@ def extend_verdict(d, impl) -> Tuple[str, Any]:
     before, after, iso_base, iso_full = impl
     exp = [[iso_base] * d["n_before"], [iso_full] * d["n_after"]]
     return ("ok" if [before, after] == exp else "violation"), exp
+
+
+# ---- a variable WITHOUT a given domain (let(T, None)): it ranges over the instances of T that exist when its query is evaluated
+def impl_domainless(d):
+    """steps: ["E"] evaluate the one query object, ["C", a] create an instance with attribute a (kept alive).
+    -> [rows of every evaluation, rows of a FRESH query evaluated at the same moments]"""
+    from dataclasses import dataclass
+    from krrood.entity_query_language.entity import let, entity, set_of
+    from krrood.entity_query_language.quantify_entity import an
+    from krrood.entity_query_language.predicate import Symbol
+
+    @dataclass(eq=False)
+    class S(Symbol):          # a class of its own per scenario: the symbol graph is global
+        a: int
+        ident: int = 0
+
+    def build():
+        x = let(S, None)
+        if d.get("form") == "set_of":
+            return an(set_of([x], x.a >= d["c"])), (lambda r: [r[x].ident])
+        return an(entity(x, x.a >= d["c"])), (lambda r: [r.ident])
+
+    q, ext = build()
+    keep, hist, iso = [], [], []
+    for st in d["steps"]:
+        if st[0] == "C":
+            keep.append(S(st[1], 100 + len(keep)))
+        else:
+            hist.append(_rows_or_exc(q, ext))
+            iso.append(_rows_or_exc(*build()))
+    return [hist, iso]
+
+
+def domainless_verdict(d, impl) -> Tuple[str, Any]:
+    hist, iso = impl
+    return ("ok" if hist == iso else "violation"), iso
 
 
 # ---- ONE Attribute node used by two queries in different roles: bare condition (truthiness) / comparison operand
@@ -942,6 +999,23 @@ def gen_extend_cases(tier, rng) -> List[dict]:
     return out
 
 
+def gen_domainless_cases(tier, rng) -> List[dict]:
+    out = []
+    for form in ("entity", "set_of"):
+        for c in (0, 1):
+            for steps in ([["E"], ["C", 1], ["C", 2], ["E"], ["E"]], [["E"], ["E"], ["C", 0], ["C", 3], ["E"], ["C", 1], ["E"]],
+                          [["C", 2], ["E"], ["C", 1], ["E"], ["E"]], [["E"], ["C", 1], ["E"]]):
+                out.append({"kind": "domainless", "form": form, "c": c, "steps": steps, "src": "domainless-explicit"})
+    for _ in range(30 if tier == "quick" else 300):
+        steps = []
+        for _ in range(rng.randint(3, 8)):
+            steps.append(["E"] if rng.chance(0.5) else ["C", rng.randint(0, 3)])
+        steps.append(["E"])
+        out.append({"kind": "domainless", "form": rng.choice(["entity", "set_of"]), "c": rng.randint(0, 2), "steps": steps,
+                    "src": "domainless-random"})
+    return out
+
+
 def gen_sharedattr_cases(tier, rng) -> List[dict]:
     out = []
     W, A = [[10, 11, 12, 13]], [[10, 0], [11, 1], [12, 0], [13, 3]]
@@ -1048,6 +1122,19 @@ def gen_extra_cases(tier, rng) -> List[dict]:
                 for n_before in (1, 2, 3):
                     out.append({"kind": "extra", "W": Wl, "A": Al, "shapes": [[k, c1, c2]], "its": [0, 0, 0],
                                 "ops": [["N", 0]] * n_before + [["X", 0]] + [["N", 1]] * 5 + [["N", 2]] * 5, "src": "extra-abandon-leak"})
+    # ONE symbolic-function call node used as a condition in one query and as a selected value in another: whether its result is
+    # a truth value must be decided by the evaluation that asks, not by whoever evaluated the shared node last
+    Ws, As = [[10, 11, 12, 13, 14]], [[10, 1], [11, 3], [12, 5], [13, 1], [14, 2]]
+    Ls = 6 if tier == "quick" else 8
+    for shapes, its in (([["sf_cond", 1, 0], ["sf_sel", 1, 0]], [0, 1]), ([["sf_and", 1, 0], ["sf_sel", 1, 0]], [0, 1]),
+                        ([["sf_cond", 1, 0]], [0, 0]), ([["sf_sel", 2, 0], ["sf_cond", 2, 0]], [0, 1])):
+        for warm in (False, True):
+            for nn in range(2, Ls + 1):
+                for word in itertools.product([0, 1], repeat=nn):
+                    if 0 not in word or 1 not in word:
+                        continue
+                    out.append({"kind": "extra", "W": Ws, "A": As, "shapes": shapes, "its": its, "warm": warm,
+                                "ops": [["N", i] for i in word], "src": "extra-shared-function"})
     # ONE comparison object used twice in a query, shared with another query (or the same query evaluated twice): the second
     # occurrence must be answered from the row's own bindings, whatever other evaluations did to the node in between
     Wc, Ac = [[10, 11, 12], [20, 21]], [[10, 2], [11, 3], [12, 1], [20, 1], [21, 2]]
@@ -1143,6 +1230,53 @@ def cmp_twin_log(d) -> List[Any]:
     return log
 
 
+def sf_twin_log(d) -> List[Any]:
+    """Recorded defect behaviour of finding C03-g, as a twin of the evaluator on the shared symbolic-function shapes: whether the
+    function's result is a truth value (a condition) or a value (a selected expression) is read from the NODE's _eval_parent_ when
+    each result is built (Variable._process_output_and_update_values_), while _eval_parent_ is written whenever any evaluation
+    enters the node: a condition-evaluation that enumerates its variable inside one call of the node (sf_cond) reads the role the
+    other query wrote in between and lets every later row through."""
+    amap = dict((i, a) for i, a in d["A"])
+    xs = _dedup(d["W"][0])
+    role: Dict[int, str] = {}
+
+    def gen(shape):
+        name, t = shape[0], shape[1]
+        if name == "sf_cond":
+            role[t] = "cond"                      # one call of the node for the whole evaluation
+            for x in xs:
+                v = amap.get(x, 0) > t
+                if role[t] == "value" or v:
+                    yield [x]
+        elif name == "sf_and":
+            for x in xs:
+                if amap.get(x, 0) >= 0:
+                    role[t] = "cond"              # one call per row, read immediately
+                    if amap.get(x, 0) > t:
+                        yield [x]
+        else:
+            for x in xs:
+                role[t] = "value"
+                yield [x, int(amap.get(x, 0) > t)]
+
+    if d.get("warm"):
+        for qi in sorted(set(d["its"])):
+            for _ in gen(d["shapes"][qi]):
+                pass
+    its = [gen(d["shapes"][qi]) for qi in d["its"]]
+    log: List[Any] = []
+    for o in d["ops"]:
+        if o[0] == "X":
+            its[o[1]].close()
+            log.append(MARK)
+            continue
+        try:
+            log.append(next(its[o[1]]))
+        except StopIteration:
+            log.append(STOP)
+    return log
+
+
 def extra_verdict(d, impl) -> Tuple[str, Any]:
     """-> ('ok' | 'known:<classes>' | 'violation', expected log).  Shapes outside the modelled fragment: the match with a
     known-finding class is INEXACT (no model predicts the wrong output), it is a signature per iterator:
@@ -1163,6 +1297,9 @@ def extra_verdict(d, impl) -> Tuple[str, Any]:
                 return "violation", exp
     if log == exp:
         return "ok", exp
+    if all(sh[0] in SF_SHAPES for sh in d["shapes"]):
+        # finding C03-g (K_shared_function_role): exact match with the recorded defect behaviour, nothing else
+        return ("known:K_shared_function_role" if log == sf_twin_log(d) else "violation"), exp
     if all(sh[0] in CMP_SHAPES for sh in d["shapes"]):
         # finding C03-f was repaired in krrood ef33928: the shared-comparison family must simply equal the isolated results
         return "violation", exp
@@ -1235,9 +1372,12 @@ def run(tier: str, seed: int, replay=None) -> int:
                 "complete evaluation, then every word over two further iterators of the same object / a shared variable (length <=6/9); "
                 "rsched: iterators of query objects with rule queries -- every word over {next0,next1} up to length 7/10 for one rule object twice, "
                 "two rule objects, rule + plain query, two different rules; abandonment at every point; seeded random objects/iterators; "
+                "extra-shared-function: ONE @symbolic_function call node used as a condition in one query and as a selected value in another "
+                "(and below and_, and twice as a condition), all interleavings up to length 6/8, cold and after warm-up; "
                 "extra-shared-comparison: ONE comparison object used twice in a query (with and without a join in between) and shared with a "
                 "second query (negated / plain) or evaluated twice, all interleavings up to length 6/8, cold and after warm-up; "
-                "extend: a rule query evaluated, then extended by a refinement / alternative / next_rule, then evaluated three more times, vs fresh "
+                "domainless: one query over let(T, None) evaluated before and after instances of T are created, vs a fresh query at the same "
+                "moments; extend: a rule query evaluated, then extended by a refinement / alternative / next_rule, then evaluated three more times, vs fresh "
                 "queries; sharedattr: one Attribute node used as a bare condition in one query and as a comparison operand in another, every "
                 "order of evaluations; extra: or_/not_/truthiness/rule shapes and exists/for_all/not_(exists) shapes vs the isolated result of a fresh query, incl. for "
                 "every shape all interleavings (length <=6/8) of two evaluations of the SAME query object after a complete warm-up evaluation. distinct = distinct case description; non-trivial = at least one row is delivered")
@@ -1262,7 +1402,7 @@ def run(tier: str, seed: int, replay=None) -> int:
     else:
         descrs = (corpus + gen_cache_cases(tier, rng.fork(1)) + gen_hist_cases(tier, rng.fork(2))
                   + gen_sched_cases(tier, rng.fork(3)) + gen_extra_cases(tier, rng.fork(4)) + gen_rsched_cases(tier, rng.fork(5))
-                  + gen_extend_cases(tier, rng.fork(6)) + gen_sharedattr_cases(tier, rng.fork(7)))
+                  + gen_extend_cases(tier, rng.fork(6)) + gen_sharedattr_cases(tier, rng.fork(7)) + gen_domainless_cases(tier, rng.fork(8)))
     impls = []
     for d in descrs:
         try:
@@ -1307,15 +1447,16 @@ def run(tier: str, seed: int, replay=None) -> int:
         flat = json.dumps(impl)
         rep.count(key, "[" in flat[1:] if kind != "cache" else any(isinstance(v, int) and v >= 0 for v in impl))
         bump(f"{kind}:{d.get('src', d.get('share', 'corpus' if '_file' in d else 'random'))}")
-        if kind in ("extra", "extend", "sharedattr"):
+        if kind in ("extra", "extend", "sharedattr", "domainless"):
             try:
-                verdict, exp = {"extra": extra_verdict, "extend": extend_verdict, "sharedattr": sharedattr_verdict}[kind](d, impl)
+                verdict, exp = {"extra": extra_verdict, "extend": extend_verdict, "sharedattr": sharedattr_verdict,
+                                "domainless": domainless_verdict}[kind](d, impl)
             except Exception:  # noqa  (construction failed: impl is an error marker)
                 verdict, exp = "violation", None
             if verdict == "ok":
                 continue
             if verdict.startswith("known:"):
-                lab = verdict[6:] + (" (extra, inexact)" if kind == "extra" and "K_shared_cmp_replay" not in verdict
+                lab = verdict[6:] + (" (extra, inexact)" if kind == "extra" and "K_shared_" not in verdict
                                      else " (predicted exactly by the class rule)")
                 known_counts[lab] = known_counts.get(lab, 0) + 1
                 continue
@@ -1413,7 +1554,7 @@ def run(tier: str, seed: int, replay=None) -> int:
              "C03_sched_exhausted_is_hist (machine = whole-evaluation model); refuted: C03_refuted_rule_object_twice (open finding C03-b2). The "
              "machine itself is a hand model tied to the implementation by the enumerated / random schedules of this check"}
     samples = []
-    for kind in ("cache", "hist", "sched", "rsched", "extra", "extend", "sharedattr"):
+    for kind in ("cache", "hist", "sched", "rsched", "extra", "extend", "sharedattr", "domainless"):
         ks = [i for i, d in enumerate(descrs) if d["kind"] == kind and "_file" not in d]
         for i in ks[:: max(1, len(ks) // 2)][:2]:
             samples.append({"case": descrs[i], "impl": impls[i]})
